@@ -769,7 +769,9 @@ for _r in ('R1-1', 'R1-2', 'R1-3', 'R1-4', 'R2-1', 'R2-2', 'R2-3', 'R2-4', 'R3-1
            'R29-1', 'R29-2', 'R29-3', 'R29-4',
            'R30-1', 'R30-2', 'R30-3', 'R30-4', 'R31-1', 'R31-2', 'R31-3', 'R31-4', 'R32-1', 'R32-2', 'R32-3', 'R32-4',
            'R33-1', 'R33-2', 'R33-3', 'R33-4',
-           'R34-1', 'R34-2', 'R34-3', 'R35-1', 'R35-2', 'R35-3', 'R36-1', 'R36-2', 'R36-3'):
+           'R34-1', 'R34-2', 'R34-3', 'R35-1', 'R35-2', 'R35-3', 'R36-1', 'R36-2', 'R36-3',
+           'R38-1', 'R38-2', 'R38-3', 'R38-4', 'R39-1', 'R39-2', 'R39-3', 'R39-4', 'R40-1', 'R40-2', 'R40-3', 'R40-4',
+           'R41-1', 'R41-2', 'R41-3', 'R41-4'):
     CORPUS.append({'id': 'S/' + _r + '-silent', 'props': ALL_PROPS, 'rule': None, 'expect': 'silent', 'edits': [],
                    'patch': 'seeded_benign/%s/patch.diff' % _r, 'tolerate_rekeyed': True})
 
@@ -1023,3 +1025,5 @@ CORPUS.append({'id': 'S/C18-T-silent', 'props': ['C04'], 'rule': None, 'expect':
 CORPUS.append({'id': 'S/R37-3-C09', 'props': ['C09'], 'rule': 'C09.R1', 'expect': 'violation', 'edits': [], 'patch': 'seeded_benign/R37-3/patch.diff'})
 CORPUS.append({'id': 'S/R37-3-silent', 'props': ['C06', 'C07', 'C01', 'C15', 'C16'], 'rule': None, 'expect': 'silent', 'edits': [],
                'patch': 'seeded_benign/R37-3/patch.diff'})
+# the never-reduced alternative behind known finding K3 removed (a clean-up): the conflict and the finding go away, nothing else changes
+B('c06-gm-arglist-def-name-dropped', ['C06', 'C15'], RUL, '    """ arglist_def : arglist COMMA NAME\n                    | NAME\n    """', '    """ arglist_def : arglist COMMA NAME\n    """')
